@@ -15,6 +15,7 @@ import (
 	"verifharness/model"
 
 	"github.com/anishathalye/porcupine"
+	"github.com/fluffle/goirc/logging"
 	"github.com/fluffle/goirc/state"
 	"pgregory.net/rapid"
 )
@@ -401,9 +402,23 @@ var c14Model = porcupine.Model{
 	},
 }
 
+// c14Logger is an application's logger: it formats what it is given (which reads it) and takes its time.
+type c14Logger struct{}
+
+func (c14Logger) out(f string, a []interface{}) {
+	_ = fmt.Sprintf(f, a...)
+	runtime.Gosched()
+}
+func (l c14Logger) Debug(f string, a ...interface{}) { l.out(f, a) }
+func (l c14Logger) Info(f string, a ...interface{})  { l.out(f, a) }
+func (l c14Logger) Warn(f string, a ...interface{})  { l.out(f, a) }
+func (l c14Logger) Error(f string, a ...interface{}) { l.out(f, a) }
+
 func runC14Conc(sc *c14Conc) (overlap bool, v *Violation) {
 	old := runtime.GOMAXPROCS(sc.Procs)
 	defer runtime.GOMAXPROCS(old)
+	logging.SetLogger(c14Logger{})
+	defer logging.SetLogger(nil)
 	st := state.NewTracker("me")
 	var clock atomic.Int64
 	var history []porcupine.Operation
@@ -494,6 +509,132 @@ func TestC14_Concurrent_Replay(t *testing.T) {
 		if _, v := runC14Conc(&sc); v != nil {
 			b, _ := json.Marshal(v.Detail)
 			t.Fatalf("REPRODUCED (run %d of %d): %s\n%s", i+1, n, v.Msg, b)
+		}
+	}
+}
+
+// ---------------------------------------------------------------------------
+// big-state leg: snapshot privacy and atomicity of Wipe when the client is on
+// a hundred channels or more
+// ---------------------------------------------------------------------------
+
+type c14Big struct {
+	Chans   int `json:"chans"`
+	Readers int `json:"readers"`
+	Procs   int `json:"gomaxprocs"`
+}
+
+func runC14Big(sc *c14Big) *Violation {
+	old := runtime.GOMAXPROCS(sc.Procs)
+	defer runtime.GOMAXPROCS(old)
+	st := state.NewTracker("me")
+	var names []string
+	for c := 0; c < sc.Chans; c++ {
+		ch := fmt.Sprintf("#big%03d", c)
+		names = append(names, ch)
+		st.NewChannel(ch)
+		st.Associate(ch, "me")
+		if c%3 == 0 {
+			st.ChannelModes(ch, "+o", "me")
+		}
+		nk := fmt.Sprintf("u%03d", c%17)
+		if st.GetNick(nk) == nil {
+			st.NewNick(nk)
+		}
+		st.Associate(ch, nk)
+	}
+	// (1) snapshots stay private however many channels they list
+	first := st.GetNick("me")
+	keep := deepCopyResult(trResult{Nick: first})
+	scr := st.Me()
+	for ch, p := range scr.Channels {
+		flipPrivs(p)
+		delete(scr.Channels, ch)
+		break
+	}
+	scr.Channels["#scribble"] = &state.ChanPrivs{Op: true}
+	for _, p := range scr.Channels {
+		flipPrivs(p)
+	}
+	if !sameResultValue(trResult{Nick: first}, keep) {
+		return violationf("C14", "client on %d channels: editing the value returned by Me() changed the value GetNick(\"me\") had returned earlier", sc.Chans)
+	}
+	again := st.Me()
+	if !sameResultValue(trResult{Nick: again}, keep) {
+		return violationf("C14", "client on %d channels: editing the value returned by Me() changed what Me() returns afterwards: %d channels listed, #scribble present: %v", sc.Chans, len(again.Channels), again.Channels["#scribble"] != nil)
+	}
+	// (2) Wipe is one step: a reader sees everything or nothing, and never everything again
+	stop := make(chan struct{})
+	bad := make(chan string, sc.Readers)
+	var wg sync.WaitGroup
+	for r := 0; r < sc.Readers; r++ {
+		wg.Add(1)
+		go func(r int) {
+			defer wg.Done()
+			seenEmpty := false
+			for {
+				select {
+				case <-stop:
+					return
+				default:
+				}
+				n := len(st.Me().Channels)
+				if n != 0 && n != sc.Chans {
+					bad <- fmt.Sprintf("Me() listed %d channels during a single Wipe() of %d", n, sc.Chans)
+					return
+				}
+				if n == 0 {
+					seenEmpty = true
+				} else if seenEmpty {
+					bad <- "Me() listed the channels again after it had listed none"
+					return
+				}
+				a := st.GetChannel(names[(r*7)%len(names)])
+				b := st.GetChannel(names[len(names)-1-(r*5)%len(names)])
+				if a == nil && b != nil {
+					bad <- fmt.Sprintf("GetChannel(%s) was gone but GetChannel(%s), asked afterwards, still existed", names[(r*7)%len(names)], names[len(names)-1-(r*5)%len(names)])
+					return
+				}
+			}
+		}(r)
+	}
+	time.Sleep(200 * time.Microsecond)
+	st.Wipe()
+	time.Sleep(200 * time.Microsecond)
+	close(stop)
+	wg.Wait()
+	select {
+	case msg := <-bad:
+		return violationf("C14", "client on %d channels, %d readers: %s", sc.Chans, sc.Readers, msg)
+	default:
+	}
+	if n := len(st.Me().Channels); n != 0 {
+		return violationf("C14", "after Wipe() Me() still lists %d channels", n)
+	}
+	return nil
+}
+
+func TestC14_Big(t *testing.T) {
+	col := evid.New("C14", "big-state leg: the client on 60..260 channels; the value returned by Me() is scribbled over (entries added, deleted, flags flipped) and must leave an earlier GetNick(me) and a later Me() untouched; then one Wipe() runs while 1..4 goroutines read Me() and GetChannel: every reader sees all channels or none, never all again, and never a later-asked channel alive after an earlier-asked one was gone; non-trivial always; distinct by scenario")
+	defer finish(t, col)
+	rapid.Check(t, func(t *rapid.T) {
+		sc := &c14Big{Chans: rapid.SampledFrom([]int{60, 64, 65, 99, 100, 101, 130, 260}).Draw(t, "chans"), Readers: rapid.IntRange(1, 4).Draw(t, "readers"), Procs: rapid.SampledFrom([]int{2, 4, 16}).Draw(t, "gomaxprocs")}
+		v := runC14Big(sc)
+		b, _ := json.Marshal(sc)
+		col.Case(string(b)+fmt.Sprint(rapid.IntRange(0, 1<<30).Draw(t, "repetition")), true, fmt.Sprintf("chans>=100=%v", sc.Chans >= 100))
+		col.Sample(sc)
+		if v != nil {
+			failRapid(t, "TestC14_Big", v, sc)
+		}
+	})
+}
+
+func TestC14_Big_Replay(t *testing.T) {
+	var sc c14Big
+	loadReplay(t, &sc)
+	for i := 0; i < 200; i++ {
+		if v := runC14Big(&sc); v != nil {
+			t.Fatalf("REPRODUCED (run %d) %s", i+1, v.Msg)
 		}
 	}
 }
